@@ -2,6 +2,7 @@
 
 use crate::core::Core;
 use crate::log_utils;
+use crate::metrics::Metrics;
 use std::io;
 
 /// The text the metrics listener would answer `GET /metrics` with, for this core's context
@@ -12,4 +13,9 @@ pub fn collect_text(core: &Core) -> String {
 /// Run the metrics listener (`settings.metrics.address`) until shutdown or error
 pub async fn serve(core: &Core) -> io::Result<()> {
     crate::metrics::listen(core.verif_context(), log_utils::IdChain::empty()).await
+}
+
+/// Current value of the `outbound_udp_sockets` gauge
+pub(crate) fn outbound_udp_sockets(m: &Metrics) -> i64 {
+    m.verif_outbound_udp_sockets()
 }
